@@ -690,7 +690,7 @@ def run_batch(mod, prop, tier, batch_seed, repo, workers, runs_override=None, wa
     print(f"{prop} {tier}: runs={total['runs']} evaluations={total['evaluations']} "
           f"distinct={len(total['digests'])} nontrivial={len(total['nontrivial'])} "
           f"steps={total['steps']} wall={wall:.1f}s ({rate:,.0f} evaluations/h) "
-          f"violations={len(violations_out)} known_findings={len(printed_known)}"
+          f"violations={len(violations_out)} violating_runs={len(total['violations'])} known_findings={len(printed_known)}"
           + (" TRUNCATED-BY-WALL-CAP" if truncated else ""), flush=True)
     return 1 if violations_out else 0
 
